@@ -420,6 +420,52 @@ func c08ExtMask(e c08Ext) (int, string, error) {
 	return mask, strings.Join(why, "; "), nil
 }
 
+
+// ---- composite shapes (slices, maps, references) ----
+
+var c08Shapes = []J{
+	{"type": "array", "items": J{"type": "string"}},
+	{"type": "array", "items": J{"$ref": "#/components/schemas/Y"}},
+	{"type": "object"},
+	{"type": "object", "additionalProperties": true},
+	{"type": "object", "additionalProperties": J{"type": "integer"}},
+	{"type": "object", "additionalProperties": J{"$ref": "#/components/schemas/Y"}},
+	{"$ref": "#/components/schemas/Y"},
+	{"type": "array", "items": J{"type": "array", "items": J{"type": "integer"}}},
+}
+var c08ShapeDoc = []string{"[]string", "[]Y", "map[string]interface{}", "map[string]interface{}", "map[string]int", "map[string]Y", "Y", "[][]int"}
+
+type c08ShapeRow struct {
+	Shape    int
+	AsMember bool
+	Got      string
+}
+
+func c08ShapeRows() []c08ShapeRow {
+	var rows []c08ShapeRow
+	y := J{"type": "object", "properties": J{"a": J{"type": "string"}}}
+	for i, sh := range c08Shapes {
+		gs, err := c08Schema(wDoc(J{}, J{"schemas": J{"X": copyJ(sh), "Y": y}}), "X", codegen.Configuration{})
+		got := "error"
+		if err == nil {
+			got = gs.TypeDecl()
+		}
+		rows = append(rows, c08ShapeRow{i, false, got})
+		hs, err := c08Schema(wDoc(J{}, J{"schemas": J{"H": J{"type": "object", "properties": J{"m": copyJ(sh)}}, "Y": y}}), "H", codegen.Configuration{})
+		got = "error"
+		if err == nil {
+			got = "no-member"
+			for _, line := range codegen.GenFieldsFromProperties(hs.Properties) {
+				if m := fieldLineRe.FindStringSubmatch(line); m != nil && m[1] == "M" {
+					got = m[2]
+				}
+			}
+		}
+		rows = append(rows, c08ShapeRow{i, true, got})
+	}
+	return rows
+}
+
 func genC08(ctx *Ctx) error {
 	trs := c08TypeRows()
 	frs, err := c08FieldRows()
@@ -461,6 +507,16 @@ func genC08(ctx *Ctx) error {
 		parts = append(parts, fmt.Sprintf("fieldRows%d", i))
 	}
 	b.WriteString("def fieldRows : List FieldRow := " + strings.Join(parts, " ++ ") + "\n\n")
+	b.WriteString("def shapeRows : List ShapeRow := [\n")
+	srs := c08ShapeRows()
+	for i, r := range srs {
+		sep := ","
+		if i == len(srs)-1 {
+			sep = ""
+		}
+		fmt.Fprintf(&b, "  ⟨%d, %v, %q⟩%s\n", r.Shape, r.AsMember, r.Got, sep)
+	}
+	b.WriteString("]\n\n")
 	b.WriteString("def extRows : List ExtRow := [\n")
 	exts := c08Exts()
 	for i, e := range exts {
@@ -523,6 +579,17 @@ func runC08(ctx *Ctx) error {
 		ctx.Res.Count("cell:type")
 		if r.Got != want {
 			ctx.Res.Violate(fmt.Sprintf("type:%s:%s", ty, f), fmt.Sprintf("schema {type: %s, format: %q} is rendered as %s, documented %s", ty, f, r.Got, want), J{"schema": J{"type": ty, "format": f}})
+		}
+	}
+	for _, r := range c08ShapeRows() {
+		ctx.Res.Eval(J{"shape": r.Shape, "member": r.AsMember}, true)
+		ctx.Res.Count("cell:shape")
+		want := c08ShapeDoc[r.Shape]
+		if r.AsMember {
+			want = "*" + want
+		}
+		if r.Got != want {
+			ctx.Res.Violate(fmt.Sprintf("shape:%d:member=%v", r.Shape, r.AsMember), fmt.Sprintf("schema %s (as a member: %v) is rendered as %s, documented %s", Canon(c08Shapes[r.Shape]), r.AsMember, r.Got, want), J{"schema": c08Shapes[r.Shape], "member": r.AsMember})
 		}
 	}
 	frs, err := c08FieldRows()
